@@ -204,6 +204,8 @@ class MasterDriver:
         self.tenants = ['t%d' % i for i in range(rng.randint(1, 3))]
         self.proids = ['foo', 'bar', 'baz']
         self.appnames = ['%s.app%d' % (p, i) for p in self.proids for i in range(3)]
+        # the other legal shape of an instance name: <user>@<proid>.<app>
+        self.appnames += ['ops@%s.app0' % p for p in self.proids if rng.random() < 0.5]
         self.op_allocations(initial=True)
         for _ in range(rng.randint(2, self.pf.max_servers)):
             self.op_server_new()
